@@ -736,7 +736,11 @@ let run_pools kvs ikvs =
       | 3 -> (* a Read went through object o (0 = the raw frame reader) *)
         if o = 0 then begin
           (match (!st.p_conns cn).p_lr with
-           | Some h -> fail (Printf.sprintf "model-expects-read-through-o%d:c%d" (int_of_nat h) c)
+           | Some _ ->
+             (* the connection reads through its raw frame reader although its limitReader pointed at a flate reader: a new,
+                uncompressed message has started (msgReader.reset) without the previous one having been read to its end —
+                legal once its final frame was received.  A raw read touches no pooled object. *)
+             ignore (apply (PStartRaw cn) "start-raw"); ignore (apply (PRead cn) "read")
            | None -> ignore (apply (PRead cn) "read"))
         end else begin
           incr uses;
